@@ -80,8 +80,13 @@ struct Uni final : IUni {
     std::deque<Cell> cells;
     std::vector<std::string> log;
     long nops = 0;
+    // a second Observable of the SAME type, fed by `chain` subscribers of the first one (derived value = the value itself); its
+    // own recorder logs `m(<value>)` into the same log, i.e. right after the chain subscriber that caused it
+    std::unique_ptr<O> mirror;
+    std::deque<Sub> mirrorHandles;
+    T initial;
 
-    explicit Uni(T v0) : obs(std::move(v0)) {}
+    explicit Uni(T v0) : obs(v0), initial(v0) {}
 
     std::string finish(const std::string &ret) {
         std::string l;
@@ -113,6 +118,21 @@ struct Uni final : IUni {
                         handles.push_back(obs.subscribe([this, cell](const T &v) { log.push_back(std::to_string(cell->id) + "(" + showV(v) + ")"); }));
                     break;
             }
+            cell->id = handles.back().getId();
+            return "h=" + std::to_string(slot) + " id=" + std::to_string(cell->id);
+        }
+        if (op == "chain") {
+            if (!mirror) {
+                mirror = std::make_unique<O>(initial);
+                mirrorHandles.push_back(mirror->subscribe([this](const T &v) { log.push_back("m(" + showV(v) + ")"); }));
+            }
+            cells.emplace_back();
+            Cell *cell = &cells.back();
+            size_t slot = handles.size();
+            handles.push_back(obs.subscribe([this, cell](const T &v) {
+                log.push_back(std::to_string(cell->id) + "(" + showV(v) + ")");
+                *mirror = v;                       // notifies the mirror's recorder iff the mirror's value changes (its Eq)
+            }));
             cell->id = handles.back().getId();
             return "h=" + std::to_string(slot) + " id=" + std::to_string(cell->id);
         }
